@@ -275,6 +275,69 @@ theorem setFancy_refines [DecidableEq α] (d : DOK α) (idxs : List (List Int)) 
       · rw [assignAll_of_not_mem _ _ _ hmem] at hne'
         exact inb_of_mem_keys hc ((mem_keys_iff (canon_inv hc) k).mpr hne')
 
+/-! ### element reads -/
+
+def partInt (p : NPart × Int) : Int := match p.1 with | .int n => n | .slice _ _ _ => 0
+
+theorem normParts_ints : ∀ (key : List Int) (shape : List Nat), key.length = shape.length →
+    match normKey key shape with
+    | some k' => ∃ nk, normParts (key.map .int) shape = .ok nk ∧ nk.map partInt = k'
+    | none => normParts (key.map .int) shape = .error .index := by
+  intro key
+  induction key with
+  | nil =>
+    intro shape h
+    cases shape with
+    | nil => exact ⟨[], rfl, rfl⟩
+    | cons d ds => simp at h
+  | cons i is ih =>
+    intro shape h
+    cases shape with
+    | nil => simp at h
+    | cons d ds =>
+      have hlen : is.length = ds.length := by simpa using h
+      have hi := C02.normalize_int_spec i d
+      have ih' := ih ds hlen
+      simp only [List.map_cons, normKey, normParts, normPart, normIdx]
+      by_cases hc : -(d : Int) ≤ i ∧ i < d
+      · simp only [hc, and_self, if_true] at hi ⊢
+        rw [hi]
+        cases hk : normKey is ds with
+        | none =>
+          rw [hk] at ih'
+          simp only [ih']
+        | some js =>
+          rw [hk] at ih'
+          obtain ⟨nk, hnk, hmap⟩ := ih'
+          simp only [hnk]
+          exact ⟨_, rfl, by simp [partInt, hmap]⟩
+      · simp only [hc, if_false] at hi ⊢
+        rw [hi]
+
+/-- **reading one element**: `d[i0, i1, …]` with one integer per axis raises IndexError exactly when some
+integer is outside `[-dim, dim)` (NumPy's rule), and otherwise returns the element at the wrapped index
+tuple — the value `get` that the history theorems speak about. -/
+theorem getInt_spec (d : DOK α) (key : List Int) (h : key.length = d.shape.length) :
+    getInt d key = match normKey key d.shape with
+      | some k' => .ok (get d k')
+      | none => .error .index := by
+  have hp := normParts_ints key d.shape h
+  have hlen : ¬ (key.map KeyPart.int).length > d.shape.length := by simp [h]
+  have hpad : padKey (key.map KeyPart.int) d.shape.length = key.map KeyPart.int := by
+    simp [padKey, h]
+  simp only [getInt, normalizeKey, hlen, if_false, hpad]
+  cases hk : normKey key d.shape with
+  | none =>
+    rw [hk] at hp
+    simp [hp]
+  | some k' =>
+    rw [hk] at hp
+    obtain ⟨nk, hnk, hmap⟩ := hp
+    have : ¬ key.length ≠ d.shape.length := by simp [h]
+    simp only [hnk, this, if_false, get]
+    rw [← hmap]
+    rfl
+
 /-! ### the refinement relation and the hypotheses of the property theorems -/
 
 /-- **Agrees.**  The outcome of an assignment in the model (`r` = array afterwards and exception, if
